@@ -25,6 +25,9 @@ Qed.
 Lemma nth_repeat_same {A} (d : A) : forall k i, nth i (repeat d k) d = d.
 Proof. induction k as [|k IH]; intros [|i]; cbn [repeat nth]; auto. Qed.
 
+Lemma Ok_inj' {A} (a b : A) : @Ok A a = Ok b -> a = b.
+Proof. intros H. exact (f_equal (fun o => match o with Ok x => x | _ => a end) H). Qed.
+
 Lemma zlen_nonneg {A} (l : list A) : 0 <= zlen l.
 Proof. unfold zlen. lia. Qed.
 
@@ -87,36 +90,21 @@ Qed.
 Lemma count_sel_nonneg {E} (sel : E -> bool) es : 0 <= count_sel sel es.
 Proof. rewrite count_sel_length. lia. Qed.
 
-(** exact behaviour of the two loops, for every list *)
+(** exact behaviour of the two loops, for every list (the counter is an int since fix d896621:
+    the slice has exactly one slot per selected element and the index walk never leaves it) *)
 Theorem collect_segs_characterised {E} (sel : E -> bool) (mk : E -> segment) (es : list E) :
-  collect_segs sel mk es =
-  if count_sel sel es <? 256 then Ok (map mk (filter sel es)) else Panic.
+  collect_segs sel mk es = Ok (map mk (filter sel es)).
 Proof.
   unfold collect_segs.
-  pose proof (fill_segs_spec sel mk es [] (Z.to_nat (wrap8 (count_sel sel es)))) as H.
+  pose proof (fill_segs_spec sel mk es [] (Z.to_nat (count_sel sel es))) as H.
   cbn [length app] in H. rewrite H. clear H.
-  rewrite wrap8_mod, count_sel_length. set (n := length (filter sel es)). unfold W8.
-  destruct (Z.of_nat n <? 256) eqn:Hlt.
-  - apply Z.ltb_lt in Hlt. rewrite Z.mod_small by lia. rewrite Nat2Z.id, Nat.leb_refl, Nat.sub_diag.
-    cbn [repeat]. rewrite app_nil_r. reflexivity.
-  - apply Z.ltb_ge in Hlt.
-    assert (Hm : 0 <= Z.of_nat n mod 256 < 256) by (apply Z.mod_pos_bound; lia).
-    replace (n <=? Z.to_nat (Z.of_nat n mod 256))%nat with false; [reflexivity|].
-    symmetry. apply Nat.leb_gt. lia.
+  rewrite count_sel_length, Nat2Z.id, Nat.leb_refl, Nat.sub_diag.
+  cbn [repeat]. rewrite app_nil_r. reflexivity.
 Qed.
-
-Theorem create_segments_characterised flags fit :
-  create_segments flags fit =
-  if count_sel is_startup fit <? 256 then Ok (map (startup_seg flags) (filter is_startup fit)) else Panic.
-Proof. apply collect_segs_characterised. Qed.
 
 Theorem create_segments_exact flags fit :
-  count_sel is_startup fit < 256 ->
   create_segments flags fit = Ok (map (startup_seg flags) (filter is_startup fit)).
-Proof.
-  intros H. rewrite create_segments_characterised.
-  apply Z.ltb_lt in H. rewrite H. reflexivity.
-Qed.
+Proof. apply collect_segs_characterised. Qed.
 
 (** the k-th segment is the k-th startup entry's address / size<<4 / the given flags *)
 Theorem create_segments_nth flags fit segs k :
@@ -126,42 +114,33 @@ Theorem create_segments_nth flags fit segs k :
   exists e, nth_error (filter is_startup fit) k = Some e /\
             nth_error segs k = Some (mkSeg (wrap32 (fe_addr e)) (wrap32 (fe_size e * 16)) flags).
 Proof.
-  rewrite create_segments_characterised.
-  destruct (count_sel is_startup fit <? 256); [|discriminate].
-  intros H Hk. inversion H; subst segs; clear H.
+  rewrite create_segments_exact.
+  intros H Hk. apply Ok_inj' in H. subst segs.
   rewrite map_length in *. split; [reflexivity|].
   destruct (nth_error (filter is_startup fit) k) as [e|] eqn:He.
   - exists e. split; [reflexivity|]. rewrite nth_error_map, He. reflexivity.
   - apply nth_error_None in He. lia.
 Qed.
 
-Theorem create_segments_overflow flags fit :
-  256 <= count_sel is_startup fit -> create_segments flags fit = Panic.
-Proof.
-  intros H. rewrite create_segments_characterised.
-  replace (count_sel is_startup fit <? 256) with false; [reflexivity|].
-  symmetry. apply Z.ltb_ge. assumption.
-Qed.
-
-Lemma create_segments_refuted_witness :
-  exists fit, count_sel is_startup fit = 256 /\ create_segments 0 fit = Panic.
-Proof. exists (repeat (mkFE 7 4294963200 16) 256). split; vm_compute; reflexivity. Qed.
+(** 256 startup entries (the count at which the former uint8 counter wrapped) and more *)
+Lemma create_segments_many_witness :
+  create_segments 0 (repeat (mkFE 7 4294963200 16) 256) = Ok (repeat (mkSeg 4294963200 256 0) 256) /\
+  create_segments 3 (repeat (mkFE 7 4294963200 1) 700) = Ok (repeat (mkSeg 4294963200 16 3) 700).
+Proof. split; vm_compute; reflexivity. Qed.
 
 Theorem create_segments_cbfs_exact flags file_size cbfs_off files :
-  count_sel is_ibb_file files < 256 ->
   create_segments_cbfs flags file_size cbfs_off files =
   Ok (map (cbfs_seg flags file_size cbfs_off) (filter is_ibb_file files)).
 Proof.
-  intros H. unfold create_segments_cbfs. rewrite collect_segs_characterised.
-  apply Z.ltb_lt in H. rewrite H. reflexivity.
+  unfold create_segments_cbfs. apply collect_segs_characterised.
 Qed.
 
 Theorem create_ibb_segments_exact se_count se_idx flags fit :
-  0 <= se_idx < se_count -> count_sel is_startup fit < 256 ->
+  0 <= se_idx < se_count ->
   create_ibb_segments se_count se_idx flags (Some fit) =
   Ok (map (startup_seg flags) (filter is_startup fit)).
 Proof.
-  intros Hi Hc. unfold create_ibb_segments. rewrite create_segments_exact by assumption.
+  intros Hi. unfold create_ibb_segments. rewrite create_segments_exact.
   cbn [bind].
   replace (0 <=? se_idx) with true by (symmetry; apply Z.leb_le; lia).
   replace (se_idx <? se_count) with true by (symmetry; apply Z.ltb_lt; lia).
@@ -171,46 +150,53 @@ Qed.
 (* ================================================================== *)
 (** * address map *)
 
-(** region [off, off+size) of an image, ending where 4 GiB is mapped *)
-Definition anchored (l : layout) (region_end : Z) : Prop :=
+(** the region of an image of length [n] that is mapped below 4 GiB ends at image offset
+    [region_end]: [off, off+size) for a descriptor / coreboot layout, the whole image for a
+    bare BIOS region *)
+Definition anchored (l : layout) (n region_end : Z) : Prop :=
   match l with
   | LIFD off size | LCoreboot off size => 0 <= off /\ 0 <= size /\ off + size = region_end /\ region_end < W32
-  | _ => False
+  | LBiosOnly => region_end = n /\ 0 <= n < W32
+  | LNone => False
   end.
 
-Theorem calc_offset_anchored l region_end addr :
-  anchored l region_end ->
+Lemma anchored_len_lt l n re : anchored l n re -> re < W32.
+Proof. destruct l; cbn [anchored]; try contradiction; intros H; decompose [and] H; lia. Qed.
+
+Theorem calc_offset_anchored l n region_end addr :
+  anchored l n region_end ->
   BASE - region_end <= addr < BASE ->
-  calc_offset l addr = Ok (spec_offset region_end addr).
+  calc_offset l n addr = Ok (spec_offset region_end addr).
 Proof.
   intros Ha Hr. unfold spec_offset.
-  destruct l as [off size|off size| |]; cbn [anchored] in Ha; try contradiction;
-    destruct Ha as (H0 & H1 & H2 & H3); cbn [calc_offset]; subst region_end;
+  destruct l as [off size|off size| |]; cbn [anchored] in Ha; try contradiction.
+  1,2: destruct Ha as (H0 & H1 & H2 & H3); cbn [calc_offset]; subst region_end;
     unfold W32, BASE in *;
     (rewrite wrap32_small by (unfold W32; lia)); (rewrite wrap64_small by (unfold W64; lia));
     f_equal; lia.
+  destruct Ha as (H0 & H1 & H2). cbn [calc_offset]. subst region_end. unfold W32, BASE in *.
+  rewrite wrap64_small by (unfold W64; lia). f_equal. lia.
 Qed.
 
-Theorem calc_offset_bios_only len addr :
-  BASE - len <= addr <= BASE -> len < W64 ->
-  calc_offset LBiosOnly addr = Ok (BASE - addr) /\
-  (BASE - addr = spec_offset len addr <-> 2 * (BASE - addr) = len).
+(** a bare BIOS region: the whole image is the region (since fix 98fb605) *)
+Theorem calc_offset_bios_only n addr :
+  0 <= n < W32 -> BASE - n <= addr < BASE ->
+  calc_offset LBiosOnly n addr = Ok (spec_offset n addr) /\ 0 <= spec_offset n addr < n.
 Proof.
-  intros Hr Hl. cbn [calc_offset]. unfold spec_offset, BASE, W64 in *.
-  rewrite wrap64_small by (unfold W64; lia). split; [reflexivity|lia].
+  intros Hn Hr. split; [apply calc_offset_anchored; [cbn [anchored]; auto | assumption]|].
+  unfold spec_offset. lia.
 Qed.
 
-Lemma calc_offset_bios_only_refuted_witness :
-  exists len addr, BASE - len <= addr < BASE /\
-                   calc_offset LBiosOnly addr <> Ok (spec_offset len addr).
-Proof. exists 65536, 4294967280. split; [unfold BASE; lia|]. vm_compute. discriminate. Qed.
-
-Lemma Ok_inj' {A} (a b : A) : @Ok A a = Ok b -> a = b.
-Proof. intros H. exact (f_equal (fun o => match o with Ok x => x | _ => a end) H). Qed.
+(** the witnesses of the former defect (the code returned 4GiB - addr): the bundled 64 KiB
+    image and the first byte of a 0x5e0000-byte image *)
+Lemma calc_offset_bios_only_witness :
+  calc_offset LBiosOnly 65536 4294967280 = Ok 65520 /\
+  calc_offset LBiosOnly 6160384 4288806912 = Ok 0.
+Proof. split; vm_compute; reflexivity. Qed.
 
 (* [injection]/[inversion] on [Ok (wrap64 (BASE - addr)) = Ok off] do not return (they
    head-normalise the modulo); [Ok_inj'] avoids any reduction. *)
-Lemma calc_offset_nonneg l addr off : calc_offset l addr = Ok off -> 0 <= off.
+Lemma calc_offset_nonneg l n addr off : calc_offset l n addr = Ok off -> 0 <= off.
 Proof.
   intros H.
   destruct l; cbn [calc_offset] in H;
@@ -225,7 +211,7 @@ Definition included (s : segment) : bool := negb (excluded s).
 (** the bytes the code reads for one segment: [size] bytes from the offset CalcImageOffset
     gives for [base]; what lies past the end of the image reads as zero *)
 Definition seg_bytes (l : layout) (img : list Z) (s : segment) : list Z :=
-  match calc_offset l (sg_base s) with
+  match calc_offset l (zlen img) (sg_base s) with
   | Ok off => read_padded img off (sg_size s)
   | _ => []
   end.
@@ -239,7 +225,7 @@ Proof.
   - cbn [filter]. unfold included at 1. destruct (excluded s); cbn [negb].
     + apply IH. assumption.
     + cbn [map concat]. unfold read_segment in H. unfold seg_bytes at 1.
-      destruct (calc_offset l (sg_base s)) as [off| | |]; cbn [bind] in H; try discriminate.
+      destruct (calc_offset l (zlen img) (sg_base s)) as [off| | |]; cbn [bind] in H; try discriminate.
       destruct (W63 <=? off); [discriminate|].
       destruct (zlen img <=? off); [discriminate|]. cbn [bind] in H.
       destruct (digest_preimage l img t) as [r| | |]; cbn [bind] in H; try discriminate.
@@ -250,17 +236,17 @@ Qed.
 Theorem digest_preimage_starts_inside l img : forall segs p,
   digest_preimage l img segs = Ok p ->
   forall s, In s segs -> included s = true ->
-  exists off, calc_offset l (sg_base s) = Ok off /\ 0 <= off < zlen img.
+  exists off, calc_offset l (zlen img) (sg_base s) = Ok off /\ 0 <= off < zlen img.
 Proof.
   induction segs as [|s t IH]; intros p H s' Hin Hinc; [contradiction|].
   cbn [digest_preimage] in H. destruct Hin as [->|Hin].
   - unfold included in Hinc. destruct (excluded s'); [discriminate|].
     unfold read_segment in H.
-    destruct (calc_offset l (sg_base s')) as [off| | |] eqn:Hc; cbn [bind] in H; try discriminate.
+    destruct (calc_offset l (zlen img) (sg_base s')) as [off| | |] eqn:Hc; cbn [bind] in H; try discriminate.
     destruct (W63 <=? off); [discriminate|].
     destruct (zlen img <=? off) eqn:Hle; [discriminate|].
     exists off. split; [reflexivity|]. apply Z.leb_gt in Hle.
-    pose proof (calc_offset_nonneg _ _ _ Hc). lia.
+    pose proof (calc_offset_nonneg _ _ _ _ Hc). lia.
   - destruct (excluded s).
     + eapply IH; eauto.
     + destruct (read_segment l img s); cbn [bind] in H; try discriminate.
@@ -299,7 +285,7 @@ Proof. induction 1; cbn [map]; congruence. Qed.
     preimage is the concatenation of the image bytes of the non-excluded segments at the
     offsets corresponding to their physical addresses *)
 Theorem digest_preimage_anchored l region_end img segs p :
-  anchored l region_end ->
+  anchored l (zlen img) region_end ->
   Forall (fun s => included s = true ->
                    BASE - region_end <= sg_base s < BASE /\ seg_inside (spec_offset region_end) img s) segs ->
   digest_preimage l img segs = Ok p ->
@@ -309,13 +295,13 @@ Proof.
   apply map_ext_Forall. rewrite Forall_forall in *. intros s Hs.
   apply filter_In in Hs. destruct Hs as [Hin Hinc].
   destruct (Hall s Hin Hinc) as (Hr & Hi0 & Hi1 & Hi2).
-  unfold seg_bytes. rewrite (calc_offset_anchored _ _ _ Ha Hr).
+  unfold seg_bytes. rewrite (calc_offset_anchored _ _ _ _ Ha Hr).
   apply read_padded_inside; assumption.
 Qed.
 
 (** ... and the call does succeed *)
 Theorem digest_preimage_anchored_ok l region_end img : forall segs,
-  anchored l region_end ->
+  anchored l (zlen img) region_end ->
   Forall (fun s => included s = true ->
                    BASE - region_end <= sg_base s < BASE /\ seg_inside (spec_offset region_end) img s /\
                    spec_offset region_end (sg_base s) < zlen img) segs ->
@@ -324,27 +310,19 @@ Proof.
   intros segs Ha. induction 1 as [|s t Hs Ht IH]; [exists []; reflexivity|].
   cbn [digest_preimage]. destruct (excluded s) eqn:He; [exact IH|].
   destruct Hs as (Hr & (Hi0 & Hi1 & Hi2) & Hlt); [unfold included; rewrite He; reflexivity|].
-  unfold read_segment. rewrite (calc_offset_anchored _ _ _ Ha Hr). cbn [bind].
+  unfold read_segment. rewrite (calc_offset_anchored _ _ _ _ Ha Hr). cbn [bind].
   assert (spec_offset region_end (sg_base s) < W63).
-  { destruct l; cbn [anchored] in Ha; try contradiction; destruct Ha as (? & ? & ? & ?);
-      unfold spec_offset, BASE, W32, W63 in *; lia. }
+  { pose proof (anchored_len_lt _ _ _ Ha). unfold spec_offset, BASE, W32, W63 in *. lia. }
   replace (W63 <=? spec_offset region_end (sg_base s)) with false by (symmetry; apply Z.leb_gt; lia).
   replace (zlen img <=? spec_offset region_end (sg_base s)) with false by (symmetry; apply Z.leb_gt; lia).
   cbn [bind]. destruct IH as [r ->]. cbn [bind]. eexists. reflexivity.
 Qed.
 
-Lemma digest_bios_only_refuted_witness :
-  exists img segs p,
-    Forall (fun s => included s = true ->
-                     BASE - zlen img <= sg_base s < BASE /\ seg_inside (spec_offset (zlen img)) img s) segs /\
-    digest_preimage LBiosOnly img segs = Ok p /\
-    p <> concat (map (fun s => slice img (spec_offset (zlen img) (sg_base s)) (sg_size s)) (filter included segs)).
-Proof.
-  exists (seqZ 0 64), [mkSeg (4294967296 - 48) 16 0]. eexists. split; [|split].
-  - constructor; [|constructor]. intros _. vm_compute. repeat split; discriminate.
-  - vm_compute. reflexivity.
-  - vm_compute. discriminate.
-Qed.
+(** the witness of the former defect: on a bare BIOS region the segment (4GiB-48, 16) of a
+    64-byte image is bytes [16,32) (the code used to read [48,64)) *)
+Lemma digest_bios_only_witness :
+  digest_preimage LBiosOnly (seqZ 0 64) [mkSeg (4294967296 - 48) 16 0] = Ok (seqZ 16 16).
+Proof. vm_compute. reflexivity. Qed.
 
 (** the digest itself, for any hash function *)
 Section Hash.
@@ -364,7 +342,7 @@ Section Hash.
   Qed.
 
   Theorem ibbs_digest_anchored ver alg l region_end img segs d :
-    anchored l region_end ->
+    anchored l (zlen img) region_end ->
     Forall (fun s => included s = true ->
                      BASE - region_end <= sg_base s < BASE /\ seg_inside (spec_offset region_end) img s) segs ->
     ibbs_digest ver alg l img segs = Ok d ->
@@ -397,10 +375,11 @@ Section Hash.
   Qed.
 End Hash.
 
-Lemma create_ibb_digest_sm3_refuted_witness :
-  exists l img segs, create_ibb_digest 2 [18] l img segs = Err 5 /\
-                     exists p, get_ibbs_digest 2 18 l img segs = Ok (18, p).
-Proof. exists (LIFD 0 16), (seqZ 0 16), []. split; [reflexivity|]. eexists. vm_compute. reflexivity. Qed.
+(** SM3 (id 18), which GetIBBsDigest offers for CBnT, now passes CreateIBBDigest as well *)
+Lemma create_ibb_digest_sm3_witness :
+  create_ibb_digest 2 [11; 18; 12] (LIFD 0 16) (seqZ 0 16) [mkSeg (4294967296 - 8) 4 0] =
+  Ok [(11, seqZ 8 4); (18, seqZ 8 4); (12, seqZ 8 4)].
+Proof. vm_compute. reflexivity. Qed.
 
 (* ================================================================== *)
 (** * the independent validator agrees (anchored region ending at the end of the image) *)
@@ -431,7 +410,7 @@ Lemma zlist_eqb_refl l : zlist_eqb l l = true.
 Proof. induction l as [|h t IH]; [reflexivity|]. cbn [zlist_eqb]. rewrite Z.eqb_refl, IH. reflexivity. Qed.
 
 Theorem validator_agrees l img : forall segs p,
-  anchored l (zlen img) ->
+  anchored l (zlen img) (zlen img) ->
   Forall (fun s => included s = true ->
                    BASE - zlen img <= sg_base s < BASE /\ seg_inside (spec_offset (zlen img)) img s) segs ->
   digest_preimage l img segs = Ok p ->
@@ -441,9 +420,9 @@ Proof.
   - cbn in *. assumption.
   - cbn [digest_preimage validator_preimage] in *. destruct (excluded s) eqn:He; [apply IH; assumption|].
     destruct Hs as (Hr & Hin); [unfold included; rewrite He; reflexivity|].
-    assert (Hl : zlen img < W32) by (destruct l; cbn [anchored] in Ha; try contradiction; lia).
+    assert (Hl : zlen img < W32) by exact (anchored_len_lt _ _ _ Ha).
     rewrite (validator_range_inside _ _ Hl Hr Hin). cbn [bind].
-    unfold read_segment in H. rewrite (calc_offset_anchored _ _ _ Ha Hr) in H. cbn [bind] in H.
+    unfold read_segment in H. rewrite (calc_offset_anchored _ _ _ _ Ha Hr) in H. cbn [bind] in H.
     destruct (W63 <=? spec_offset (zlen img) (sg_base s)); [discriminate|].
     destruct (zlen img <=? spec_offset (zlen img) (sg_base s)); [discriminate|]. cbn [bind] in H.
     destruct (digest_preimage l img t) as [r| | |]; cbn [bind] in H; try discriminate.
@@ -452,7 +431,7 @@ Proof.
 Qed.
 
 Theorem ibbs_match_accepts l img segs p :
-  anchored l (zlen img) ->
+  anchored l (zlen img) (zlen img) ->
   Forall (fun s => included s = true ->
                    BASE - zlen img <= sg_base s < BASE /\ seg_inside (spec_offset (zlen img)) img s) segs ->
   digest_preimage l img segs = Ok p ->
@@ -462,16 +441,10 @@ Proof.
   rewrite (validator_agrees _ _ _ _ Ha Hall H). cbn [bind]. rewrite zlist_eqb_refl. reflexivity.
 Qed.
 
-Lemma ibbs_match_bios_only_refuted_witness :
-  exists img segs,
-    Forall (fun s => included s = true ->
-                     BASE - zlen img <= sg_base s < BASE /\ seg_inside (spec_offset (zlen img)) img s) segs /\
-    ibbs_match LBiosOnly img segs = Ok false.
-Proof.
-  exists (seqZ 0 64), [mkSeg (4294967296 - 48) 16 0]. split.
-  - constructor; [|constructor]. intros _. vm_compute. repeat split; discriminate.
-  - vm_compute. reflexivity.
-Qed.
+(** the witness of the former defect is accepted now *)
+Lemma ibbs_match_bios_only_witness :
+  ibbs_match LBiosOnly (seqZ 0 64) [mkSeg (4294967296 - 48) 16 0] = Ok true.
+Proof. vm_compute. reflexivity. Qed.
 
 (* ================================================================== *)
 (** * StitchFITEntries *)
@@ -538,42 +511,43 @@ Qed.
 Definition new_blob (e : fit_entry) (acm bpm km : list Z) : list Z :=
   if fe_type e =? T_BPM then bpm else if fe_type e =? T_KM then km else if fe_type e =? T_SACM then acm else [].
 
-Definition target (l : layout) (e : fit_entry) (acm bpm km : list Z) : option (Z * list Z) :=
+Definition target (l : layout) (n : Z) (e : fit_entry) (acm bpm km : list Z) : option (Z * list Z) :=
   match new_blob e acm bpm km with
   | [] => None
-  | new => match calc_offset l (fe_addr e) with Ok off => Some (off, new) | _ => None end
+  | new => match calc_offset l n (fe_addr e) with Ok off => Some (off, new) | _ => None end
   end.
 
-Fixpoint targets (l : layout) (es : list fit_entry) (acm bpm km : list Z) : list (Z * list Z) :=
+(** [n]: length of the image StitchFITEntries read at the start *)
+Fixpoint targets (l : layout) (n : Z) (es : list fit_entry) (acm bpm km : list Z) : list (Z * list Z) :=
   match es with
   | [] => []
-  | e :: t => match target l e acm bpm km with
-              | Some x => x :: targets l t acm bpm km
-              | None => targets l t acm bpm km
+  | e :: t => match target l n e acm bpm km with
+              | Some x => x :: targets l n t acm bpm km
+              | None => targets l n t acm bpm km
               end
   end.
 
 Lemma stitch_manifest_cases l orig file e new file' ok :
   stitch_manifest l orig file e new = (file', ok) ->
   file' = file \/
-  (ok = true /\ new <> [] /\ exists off, calc_offset l (fe_addr e) = Ok off /\ 0 <= off /\ file' = write_at file off new).
+  (ok = true /\ new <> [] /\ exists off, calc_offset l (zlen orig) (fe_addr e) = Ok off /\ 0 <= off /\ file' = write_at file off new).
 Proof.
   unfold stitch_manifest. destruct new as [|b new]; [intros E; inversion E; auto|].
   destruct (manifest_data_len (zlen orig) e =? 0); [intros E; inversion E; auto|].
   destruct (manifest_data_len (zlen orig) e <? zlen (b :: new)); [intros E; inversion E; auto|].
-  destruct (calc_offset l (fe_addr e)) as [off| | |] eqn:Hc; try (intros E; inversion E; auto; fail).
+  destruct (calc_offset l (zlen orig) (fe_addr e)) as [off| | |] eqn:Hc; try (intros E; inversion E; auto; fail).
   destruct (W63 <=? off); intros E; inversion E; auto.
   right. split; [reflexivity|]. split; [discriminate|]. exists off. split; [reflexivity|].
   split; [eapply calc_offset_nonneg; eassumption | reflexivity].
 Qed.
 
-Lemma stitch_acm_cases l file e new file' ok :
-  stitch_acm l file e new = (file', ok) ->
+Lemma stitch_acm_cases l n file e new file' ok :
+  stitch_acm l n file e new = (file', ok) ->
   file' = file \/
-  (ok = true /\ new <> [] /\ exists off, calc_offset l (fe_addr e) = Ok off /\ 0 <= off /\ file' = write_at file off new).
+  (ok = true /\ new <> [] /\ exists off, calc_offset l n (fe_addr e) = Ok off /\ 0 <= off /\ file' = write_at file off new).
 Proof.
   unfold stitch_acm. destruct new as [|b new]; [intros E; inversion E; auto|].
-  destruct (calc_offset l (fe_addr e)) as [off| | |] eqn:Hc; try (intros E; inversion E; auto; fail).
+  destruct (calc_offset l n (fe_addr e)) as [off| | |] eqn:Hc; try (intros E; inversion E; auto; fail).
   destruct (W63 <=? off); [intros E; inversion E; auto|].
   destruct (zlen file <=? off); [intros E; inversion E; auto|].
   destruct (acm_size (read_padded file off 32) =? 0); [intros E; inversion E; auto|].
@@ -585,7 +559,7 @@ Qed.
 Lemma stitch_entry_cases l orig file e acm bpm km file' ok :
   stitch_entry l orig file e acm bpm km = (file', ok) ->
   file' = file \/
-  (ok = true /\ exists off new, target l e acm bpm km = Some (off, new) /\ 0 <= off /\ file' = write_at file off new).
+  (ok = true /\ exists off new, target l (zlen orig) e acm bpm km = Some (off, new) /\ 0 <= off /\ file' = write_at file off new).
 Proof.
   unfold stitch_entry, target, new_blob.
   destruct (fe_type e =? T_BPM).
@@ -610,7 +584,7 @@ Qed.
 (** a successful step on a targeted entry did write the new blob at the computed offset *)
 Lemma stitch_entry_ok_target l orig file e acm bpm km file' off new :
   stitch_entry l orig file e acm bpm km = (file', true) ->
-  target l e acm bpm km = Some (off, new) ->
+  target l (zlen orig) e acm bpm km = Some (off, new) ->
   0 <= off /\ file' = write_at file off new.
 Proof.
   unfold stitch_entry, target, new_blob.
@@ -618,17 +592,17 @@ Proof.
   - unfold stitch_manifest. destruct bpm as [|b t]; [discriminate|].
     destruct (manifest_data_len (zlen orig) e =? 0); [discriminate|].
     destruct (manifest_data_len (zlen orig) e <? zlen (b :: t)); [discriminate|].
-    destruct (calc_offset l (fe_addr e)) as [o| | |] eqn:Hc; try discriminate.
+    destruct (calc_offset l (zlen orig) (fe_addr e)) as [o| | |] eqn:Hc; try discriminate.
     destruct (W63 <=? o); [discriminate|]. intros E T. inversion E. inversion T. subst.
     split; [eapply calc_offset_nonneg; eassumption|reflexivity].
   - unfold stitch_manifest. destruct km as [|b t]; [discriminate|].
     destruct (manifest_data_len (zlen orig) e =? 0); [discriminate|].
     destruct (manifest_data_len (zlen orig) e <? zlen (b :: t)); [discriminate|].
-    destruct (calc_offset l (fe_addr e)) as [o| | |] eqn:Hc; try discriminate.
+    destruct (calc_offset l (zlen orig) (fe_addr e)) as [o| | |] eqn:Hc; try discriminate.
     destruct (W63 <=? o); [discriminate|]. intros E T. inversion E. inversion T. subst.
     split; [eapply calc_offset_nonneg; eassumption|reflexivity].
   - unfold stitch_acm. destruct acm as [|b t]; [discriminate|].
-    destruct (calc_offset l (fe_addr e)) as [o| | |] eqn:Hc; try discriminate.
+    destruct (calc_offset l (zlen orig) (fe_addr e)) as [o| | |] eqn:Hc; try discriminate.
     destruct (W63 <=? o); [discriminate|].
     destruct (zlen file <=? o); [discriminate|].
     destruct (acm_size (read_padded file o 32) =? 0); [discriminate|].
@@ -644,13 +618,13 @@ Definition outside (ts : list (Z * list Z)) (i : Z) : Prop :=
 (** frame: whatever happens (success or error), a byte outside every region
     [CalcImageOffset(entry address), + len(new blob)) keeps its value *)
 Theorem stitch_loop_frame l orig acm bpm km : forall es file i,
-  0 <= i -> outside (targets l es acm bpm km) i ->
+  0 <= i -> outside (targets l (zlen orig) es acm bpm km) i ->
   zn (fst (stitch_loop l orig file es acm bpm km)) i = zn file i.
 Proof.
   induction es as [|e t IH]; intros file i Hi Hout; [reflexivity|].
   cbn [stitch_loop]. destruct (stitch_entry l orig file e acm bpm km) as [file' ok] eqn:He.
-  assert (Hout' : outside (targets l t acm bpm km) i).
-  { intros off new Hin. apply Hout. cbn [targets]. destruct (target l e acm bpm km); [right|]; assumption. }
+  assert (Hout' : outside (targets l (zlen orig) t acm bpm km) i).
+  { intros off new Hin. apply Hout. cbn [targets]. destruct (target l (zlen orig) e acm bpm km); [right|]; assumption. }
   assert (Hstep : zn file' i = zn file i).
   { apply stitch_entry_cases in He. destruct He as [->|(_ & off & new & Ht & Ho & ->)]; [reflexivity|].
     rewrite write_at_zn by assumption.
@@ -663,7 +637,7 @@ Qed.
 
 Theorem stitch_frame l img fit acm bpm km i :
   0 <= i ->
-  outside (match fit with Some es => targets l es acm bpm km | None => [] end) i ->
+  outside (match fit with Some es => targets l (zlen img) es acm bpm km | None => [] end) i ->
   zn (fst (stitch l img fit acm bpm km)) i = zn img i.
 Proof.
   intros Hi Ho. destruct fit as [es|]; cbn [stitch]; [apply stitch_loop_frame; assumption | reflexivity].
@@ -672,7 +646,7 @@ Qed.
 (** the file never shrinks, and keeps its length when every region lies inside it *)
 Theorem stitch_loop_length l orig acm bpm km : forall es file,
   zlen file <= zlen (fst (stitch_loop l orig file es acm bpm km)) /\
-  (Forall (fun t => fst t + zlen (snd t) <= zlen file) (targets l es acm bpm km) ->
+  (Forall (fun t => fst t + zlen (snd t) <= zlen file) (targets l (zlen orig) es acm bpm km) ->
    zlen (fst (stitch_loop l orig file es acm bpm km)) = zlen file).
 Proof.
   induction es as [|e t IH]; intros file; [split; [cbn; lia|reflexivity]|].
@@ -681,7 +655,7 @@ Proof.
   destruct He as [->|(-> & off & new & Ht & Ho & ->)].
   - destruct ok; cbn [fst].
     + destruct (IH file) as [I1 I2]. split; [assumption|]. intros Hall. apply I2.
-      cbn [targets] in Hall. destruct (target l e acm bpm km); [inversion Hall|]; assumption.
+      cbn [targets] in Hall. destruct (target l (zlen orig) e acm bpm km); [inversion Hall|]; assumption.
     + split; [lia|reflexivity].
   - destruct (IH (write_at file off new)) as [I1 I2]. rewrite write_at_zlen in * by assumption. split; [lia|].
     intros Hall. cbn [targets] in Hall. rewrite Ht in Hall. inversion Hall as [|x xs Hx Hxs]; subst.
@@ -701,14 +675,14 @@ Fixpoint disjoint_regions (ts : list (Z * list Z)) : Prop :=
     do not overlap (a later entry would overwrite an earlier one otherwise) *)
 Theorem stitch_loop_reread l orig acm bpm km : forall es file file',
   stitch_loop l orig file es acm bpm km = (file', true) ->
-  disjoint_regions (targets l es acm bpm km) ->
-  forall off new, In (off, new) (targets l es acm bpm km) ->
+  disjoint_regions (targets l (zlen orig) es acm bpm km) ->
+  forall off new, In (off, new) (targets l (zlen orig) es acm bpm km) ->
   forall k, 0 <= k < zlen new -> zn file' (off + k) = zn new k.
 Proof.
   induction es as [|e t IH]; intros file file' Hs Hd off new Hin k Hk; [contradiction|].
   cbn [stitch_loop] in Hs. destruct (stitch_entry l orig file e acm bpm km) as [file1 ok] eqn:He.
   destruct ok; [|inversion Hs].
-  cbn [targets] in Hd, Hin. destruct (target l e acm bpm km) as [[o d]|] eqn:Ht.
+  cbn [targets] in Hd, Hin. destruct (target l (zlen orig) e acm bpm km) as [[o d]|] eqn:Ht.
   - destruct (stitch_entry_ok_target _ _ _ _ _ _ _ _ _ _ He Ht) as [Ho ->].
     cbn [disjoint_regions] in Hd. destruct Hd as [Hfa Hd].
     destruct Hin as [Heq|Hin].
@@ -764,7 +738,7 @@ Proof.
 Qed.
 
 Theorem stitch_manifest_within_entry l orig file e new file' :
-  anchored l (zlen orig) ->
+  anchored l (zlen orig) (zlen orig) ->
   0 <= fe_addr e < W64 -> 0 <= fe_size e < 16777216 ->
   new <> [] ->
   stitch_manifest l orig file e new = (file', true) ->
@@ -777,30 +751,24 @@ Proof.
   destruct (manifest_data_len (zlen orig) e <? zlen (b :: t)) eqn:H1; [discriminate|].
   apply Z.eqb_neq in H0. apply Z.ltb_ge in H1.
   assert (Hl : 0 <= zlen orig < W32).
-  { split; [apply zlen_nonneg|]. destruct l; cbn [anchored] in Ha; try contradiction; lia. }
+  { split; [apply zlen_nonneg | exact (anchored_len_lt _ _ _ Ha)]. }
   destruct (manifest_data_len_inside _ _ Hl Hadr Hsz H0) as (Hd & Hlo & Hhi).
   assert (Hr : BASE - zlen orig <= fe_addr e < BASE).
   { unfold spec_offset in Hhi. pose proof (zlen_nonneg (b :: t)). rewrite zlen_cons in *.
     pose proof (zlen_nonneg t). split; [assumption|]. unfold BASE in *. lia. }
-  rewrite (calc_offset_anchored _ _ _ Ha Hr).
+  rewrite (calc_offset_anchored _ _ _ _ Ha Hr).
   destruct (W63 <=? spec_offset (zlen orig) (fe_addr e)); [discriminate|].
   intros E. inversion E. cbn zeta. split; [reflexivity|].
   unfold spec_offset in *. lia.
 Qed.
 
-Lemma stitch_bios_only_refuted_witness :
-  exists img e km,
-    BASE - zlen img <= fe_addr e < BASE /\
-    let off := spec_offset (zlen img) (fe_addr e) in
-    0 <= off /\ off + zlen km <= off + fe_size e <= zlen img /\
-    exists file', stitch LBiosOnly img (Some [e]) [] [] km = (file', true) /\
-                  zlen file' <> zlen img /\ zn file' off <> zn km 0.
-Proof.
-  exists (seqZ 0 64), (mkFE 11 (4294967296 - 64) 16), [255; 254].
-  split; [vm_compute; split; [discriminate|reflexivity]|].
-  cbn zeta. split; [vm_compute; discriminate|]. split; [vm_compute; split; discriminate|].
-  eexists. split; [vm_compute; reflexivity|]. split; vm_compute; discriminate.
-Qed.
+(** the witness of the former defect: a 2-byte KM for the 16-byte KM entry at the start of a
+    64-byte bare BIOS region goes to offset 0 (the code used to append it at offset 64) *)
+Lemma stitch_bios_only_witness :
+  exists file',
+    stitch LBiosOnly (seqZ 0 64) (Some [mkFE 11 (4294967296 - 64) 16]) [] [] [255; 254] = (file', true) /\
+    zlen file' = 64 /\ zn file' 0 = 255 /\ zn file' 1 = 254 /\ zn file' 2 = 2.
+Proof. eexists. split; [vm_compute; reflexivity|]. repeat split; vm_compute; reflexivity. Qed.
 
 Lemma stitch_not_atomic_witness :
   exists l img fit acm bpm km file',
@@ -836,40 +804,35 @@ Qed.
 (** whenever the call returns, the list is one segment per startup entry, in FIT order *)
 Theorem create_ibb_segments_ok_inv se_count se_idx flags fit segs :
   create_ibb_segments se_count se_idx flags (Some fit) = Ok segs ->
-  segs = map (startup_seg flags) (filter is_startup fit) /\
-  count_sel is_startup fit < 256 /\ 0 <= se_idx < se_count.
+  segs = map (startup_seg flags) (filter is_startup fit) /\ 0 <= se_idx < se_count.
 Proof.
-  unfold create_ibb_segments. rewrite create_segments_characterised.
-  destruct (count_sel is_startup fit <? 256) eqn:Hc; cbn [bind]; [|discriminate].
+  unfold create_ibb_segments. rewrite create_segments_exact. cbn [bind].
   destruct (0 <=? se_idx) eqn:H0; cbn [andb]; [|discriminate].
   destruct (se_idx <? se_count) eqn:H1; [|discriminate].
-  intros E. apply Ok_inj' in E. apply Z.ltb_lt in Hc, H1. apply Z.leb_le in H0.
-  split; [symmetry; assumption|]. split; [assumption|lia].
+  intros E. apply Ok_inj' in E. apply Z.ltb_lt in H1. apply Z.leb_le in H0.
+  split; [symmetry; assumption|lia].
 Qed.
 
 Theorem create_ibb_segments_fit se_count se_idx flags fit :
-  0 <= se_idx < se_count -> count_sel is_startup fit < 256 ->
+  0 <= se_idx < se_count ->
   Forall (fun e => is_startup e = true -> fit_entry_wf e) fit ->
   create_ibb_segments se_count se_idx flags (Some fit) =
   Ok (map (fun e => mkSeg (fe_addr e) (16 * fe_size e) flags) (filter is_startup fit)).
 Proof.
-  intros Hi Hc Hwf. rewrite create_ibb_segments_exact by assumption. f_equal.
+  intros Hi Hwf. rewrite create_ibb_segments_exact by assumption. f_equal.
   apply map_ext_in_filter. intros e He Hs. apply startup_seg_wf.
   rewrite Forall_forall in Hwf. auto.
 Qed.
 
-Theorem create_ibb_segments_overflow se_count se_idx flags fit :
-  256 <= count_sel is_startup fit ->
-  create_ibb_segments se_count se_idx flags (Some fit) = Panic.
+(** 256 startup entries, the count at which the former uint8 counter wrapped (the call
+    panicked), and 700 *)
+Lemma create_ibb_segments_many_witness :
+  Forall (fun e => is_startup e = true -> fit_entry_wf e) (repeat (mkFE 7 4294963200 16) 256) /\
+  count_sel is_startup (repeat (mkFE 7 4294963200 16) 256) = 256 /\
+  create_ibb_segments 1 0 0 (Some (repeat (mkFE 7 4294963200 16) 256)) = Ok (repeat (mkSeg 4294963200 256 0) 256) /\
+  create_ibb_segments 1 0 3 (Some (mkFE 0 0 701 :: repeat (mkFE 7 4294963200 1) 700)) = Ok (repeat (mkSeg 4294963200 16 3) 700).
 Proof.
-  intros H. unfold create_ibb_segments. rewrite create_segments_overflow by assumption. reflexivity.
-Qed.
-
-Lemma create_ibb_segments_refuted_witness :
-  exists fit, Forall (fun e => is_startup e = true -> fit_entry_wf e) fit /\
-              count_sel is_startup fit = 256 /\ create_ibb_segments 1 0 0 (Some fit) = Panic.
-Proof.
-  exists (repeat (mkFE 7 4294963200 16) 256). split; [|split; vm_compute; reflexivity].
+  split; [|repeat split; vm_compute; reflexivity].
   apply Forall_forall. intros e He. apply repeat_spec in He. subst e. intros _.
   unfold fit_entry_wf, W32. cbn [fe_addr fe_size]. lia.
 Qed.
@@ -897,15 +860,15 @@ Proof.
 Qed.
 
 Theorem create_ibb_segments_cbfs_exact se_count se_idx flags file_size cbfs_off files :
-  0 <= se_idx < se_count -> count_sel is_ibb_file files < 256 ->
+  0 <= se_idx < se_count ->
   0 < file_size <= BASE ->
   Forall (fun f => is_ibb_file f = true -> cbfs_file_wf file_size cbfs_off f) files ->
   create_ibb_segments_cbfs se_count se_idx flags file_size cbfs_off files =
   Ok (map (fun f => mkSeg (BASE - file_size + (cbfs_off + cf_rec f + cf_sub f)) (cf_size f) flags)
           (filter is_ibb_file files)).
 Proof.
-  intros Hi Hc Hf Hwf. unfold create_ibb_segments_cbfs.
-  rewrite create_segments_cbfs_exact by assumption. cbn [bind].
+  intros Hi Hf Hwf. unfold create_ibb_segments_cbfs.
+  rewrite create_segments_cbfs_exact. cbn [bind].
   replace (0 <=? se_idx) with true by (symmetry; apply Z.leb_le; lia).
   replace (se_idx <? se_count) with true by (symmetry; apply Z.ltb_lt; lia).
   cbn [andb]. f_equal. apply map_ext_in_filter. intros f Hin Hs. apply cbfs_seg_spec; [assumption|].
@@ -917,7 +880,7 @@ Theorem create_ibb_segments_cbfs_ok_inv se_count se_idx flags file_size cbfs_off
   segs = map (cbfs_seg flags file_size cbfs_off) (filter is_ibb_file files).
 Proof.
   unfold create_ibb_segments_cbfs, create_segments_cbfs. rewrite collect_segs_characterised.
-  destruct (count_sel is_ibb_file files <? 256); cbn [bind]; [|discriminate].
+  cbn [bind].
   destruct ((0 <=? se_idx) && (se_idx <? se_count)); [|discriminate].
   intros E. apply Ok_inj' in E. symmetry. assumption.
 Qed.
@@ -931,7 +894,7 @@ Section Hash2.
   Variable H : Z -> list Z -> list Z.
 
   Theorem ibbs_digest_anchored_total ver alg l region_end img segs :
-    anchored l region_end -> region_end <= zlen img ->
+    anchored l (zlen img) region_end -> region_end <= zlen img ->
     alg_supported ver alg = true ->
     Forall (fun s => included s = true -> seg_in_region region_end img s) segs ->
     ibbs_digest H ver alg l img segs =
@@ -953,20 +916,21 @@ Section Hash2.
   Qed.
 End Hash2.
 
+(** every algorithm GetIBBsDigest offers survives the name round trip of CreateIBBDigest *)
+Lemma alg_roundtrips_iff_supported ver a : alg_name_roundtrips ver a = alg_supported ver a.
+Proof. reflexivity. Qed.
+
 Lemma alg_roundtrips_supported ver a : alg_name_roundtrips ver a = true -> alg_supported ver a = true.
-Proof.
-  unfold alg_name_roundtrips, alg_supported. destruct (ver =? 1); [auto|].
-  intros E. rewrite E. reflexivity.
-Qed.
+Proof. rewrite alg_roundtrips_iff_supported. auto. Qed.
 
 Theorem create_ibb_digest_total ver l img segs p : forall algs,
-  Forall (fun a => alg_name_roundtrips ver a = true) algs ->
+  Forall (fun a => alg_supported ver a = true) algs ->
   digest_preimage l img segs = Ok p ->
   create_ibb_digest ver algs l img segs = Ok (map (fun a => (a, p)) algs).
 Proof.
   induction 1 as [|a t Ha Ht IH]; intros Hp; [reflexivity|].
-  cbn [create_ibb_digest map]. rewrite Ha. unfold get_ibbs_digest.
-  rewrite (alg_roundtrips_supported _ _ Ha), Hp. cbn [bind]. rewrite (IH Hp). reflexivity.
+  cbn [create_ibb_digest map]. rewrite alg_roundtrips_iff_supported, Ha. unfold get_ibbs_digest.
+  rewrite Ha, Hp. cbn [bind]. rewrite (IH Hp). reflexivity.
 Qed.
 
 (** ** stitching on an anchored layout: the code's offsets are the property's offsets *)
@@ -997,17 +961,17 @@ Fixpoint spec_targets (re : Z) (es : list fit_entry) (acm bpm km : list Z) : lis
               end
   end.
 
-Lemma targets_anchored l re acm bpm km : forall es,
-  anchored l re ->
+Lemma targets_anchored l n re acm bpm km : forall es,
+  anchored l n re ->
   Forall (fun e => is_target_type e = true -> BASE - re <= fe_addr e < BASE) es ->
-  targets l es acm bpm km = spec_targets re es acm bpm km.
+  targets l n es acm bpm km = spec_targets re es acm bpm km.
 Proof.
   intros es Ha. induction 1 as [|e t He Ht IH]; [reflexivity|].
   cbn [targets spec_targets]. unfold target.
-  destruct (new_blob e acm bpm km) as [|b n] eqn:Hn; [exact IH|].
+  destruct (new_blob e acm bpm km) as [|b nb] eqn:Hn; [exact IH|].
   assert (Hw : BASE - re <= fe_addr e < BASE).
   { apply He. apply (new_blob_target_type e acm bpm km). rewrite Hn. discriminate. }
-  rewrite (calc_offset_anchored _ _ _ Ha Hw). rewrite IH. reflexivity.
+  rewrite (calc_offset_anchored _ _ _ _ Ha Hw). rewrite IH. reflexivity.
 Qed.
 
 Lemma In_spec_targets re acm bpm km e : forall es,
@@ -1019,9 +983,6 @@ Proof.
   - destruct (new_blob e acm bpm km) as [|b n] eqn:E; [contradiction Hn; reflexivity|]. left. reflexivity.
   - destruct (new_blob x acm bpm km); [|right]; apply IH; assumption.
 Qed.
-
-Lemma anchored_len_lt l re : anchored l re -> re < W32.
-Proof. destruct l; cbn [anchored]; try contradiction; intros (? & ? & ? & ?); assumption. Qed.
 
 (** the region of the image a FIT entry designates for the blob that is offered for it:
     KM / BPM: [fe_size] bytes at the entry's address; startup ACM: as many bytes as the new
@@ -1043,7 +1004,7 @@ Proof.
 Qed.
 
 Lemma stitch_manifest_step l orig file e new file' ok :
-  anchored l (zlen orig) -> entry_in_window (zlen orig) e ->
+  anchored l (zlen orig) (zlen orig) -> entry_in_window (zlen orig) e ->
   stitch_manifest l orig file e new = (file', ok) ->
   file' = file \/
   (new <> [] /\ let off := spec_offset (zlen orig) (fe_addr e) in
@@ -1052,20 +1013,20 @@ Proof.
   intros Ha [Hw Hs] E. destruct ok.
   - destruct new as [|b t]; [cbn [stitch_manifest] in E; left; inversion E; reflexivity|].
     right. split; [discriminate|].
-    pose proof (anchored_len_lt _ _ Ha) as Hl.
+    pose proof (anchored_len_lt _ _ _ Ha) as Hl.
     eapply stitch_manifest_within_entry; try eassumption; [unfold W32, W64, BASE in *; lia | discriminate].
   - left. apply stitch_manifest_cases in E. destruct E as [E|(Hc & _)]; [assumption|discriminate].
 Qed.
 
-Theorem stitch_acm_within_entry l re file e new file' :
-  anchored l re -> BASE - re <= fe_addr e < BASE -> new <> [] ->
-  stitch_acm l file e new = (file', true) ->
+Theorem stitch_acm_within_entry l n re file e new file' :
+  anchored l n re -> BASE - re <= fe_addr e < BASE -> new <> [] ->
+  stitch_acm l n file e new = (file', true) ->
   let off := spec_offset re (fe_addr e) in
   file' = write_at file off new /\ 0 <= off < zlen file /\
   zlen new = acm_size (read_padded file off 32) /\ zlen new <> 0.
 Proof.
   intros Ha Hw Hn. unfold stitch_acm. destruct new as [|b t]; [contradiction Hn; reflexivity|].
-  rewrite (calc_offset_anchored _ _ _ Ha Hw).
+  rewrite (calc_offset_anchored _ _ _ _ Ha Hw).
   destruct (W63 <=? spec_offset re (fe_addr e)); [discriminate|].
   destruct (zlen file <=? spec_offset re (fe_addr e)) eqn:H1; [discriminate|].
   destruct (acm_size (read_padded file (spec_offset re (fe_addr e)) 32) =? 0) eqn:H2; [discriminate|].
@@ -1076,21 +1037,21 @@ Proof.
   rewrite H3. assumption.
 Qed.
 
-Lemma stitch_acm_step l re file e new file' ok :
-  anchored l re -> BASE - re <= fe_addr e < BASE ->
-  stitch_acm l file e new = (file', ok) ->
+Lemma stitch_acm_step l n re file e new file' ok :
+  anchored l n re -> BASE - re <= fe_addr e < BASE ->
+  stitch_acm l n file e new = (file', ok) ->
   file' = file \/
   (new <> [] /\ let off := spec_offset re (fe_addr e) in file' = write_at file off new /\ 0 <= off).
 Proof.
   intros Ha Hw E. apply stitch_acm_cases in E. destruct E as [E|(_ & Hn & off & Hc & H0 & Hf)]; [left; assumption|].
   right. split; [assumption|]. cbn zeta.
-  rewrite (calc_offset_anchored _ _ _ Ha Hw) in Hc. apply Ok_inj' in Hc. rewrite Hc. split; assumption.
+  rewrite (calc_offset_anchored _ _ _ _ Ha Hw) in Hc. apply Ok_inj' in Hc. rewrite Hc. split; assumption.
 Qed.
 
 (** one step: a byte outside the entry's region keeps its value; the file keeps its length
     when the region lies inside it *)
 Lemma stitch_entry_step_region l orig file e acm bpm km file' ok :
-  anchored l (zlen orig) -> (is_target_type e = true -> entry_in_window (zlen orig) e) ->
+  anchored l (zlen orig) (zlen orig) -> (is_target_type e = true -> entry_in_window (zlen orig) e) ->
   stitch_entry l orig file e acm bpm km = (file', ok) ->
   file' = file \/
   (exists new, new <> [] /\ let off := spec_offset (zlen orig) (fe_addr e) in
@@ -1109,7 +1070,7 @@ Proof.
     cbn zeta in *. destruct km; [contradiction Hn; reflexivity|]. destruct E as (E1 & E2 & E3 & E4).
     repeat split; assumption || (intros _; assumption). }
   destruct (fe_type e =? T_SACM) eqn:T3.
-  { intros E. apply (stitch_acm_step l (zlen orig)) in E; [|assumption|apply Hw; reflexivity].
+  { intros E. apply (stitch_acm_step l (zlen orig) (zlen orig)) in E; [|assumption|apply Hw; reflexivity].
     destruct E as [E|(Hn & E)]; [left; assumption|]. right. exists acm. split; [assumption|].
     cbn zeta in *. destruct E as (E1 & E2). repeat split; try assumption; [lia|].
     intros Hne. apply Z.eqb_eq in T3. contradiction. }
@@ -1119,7 +1080,7 @@ Qed.
 (** frame, in the property's vocabulary: a byte outside the regions of the targeted FIT
     entries keeps its value (whether the call succeeds or fails) *)
 Theorem stitch_loop_frame_region l orig acm bpm km i : forall es file,
-  anchored l (zlen orig) -> entries_in_window (zlen orig) es -> 0 <= i ->
+  anchored l (zlen orig) (zlen orig) -> entries_in_window (zlen orig) es -> 0 <= i ->
   (forall e, In e es -> ~ in_entry_region (zlen orig) e acm bpm km i) ->
   zn (fst (stitch_loop l orig file es acm bpm km)) i = zn file i.
 Proof.
@@ -1136,13 +1097,13 @@ Proof.
 Qed.
 
 Theorem stitch_frame_region l img fit acm bpm km i :
-  anchored l (zlen img) -> entries_in_window (zlen img) fit -> 0 <= i ->
+  anchored l (zlen img) (zlen img) -> entries_in_window (zlen img) fit -> 0 <= i ->
   (forall e, In e fit -> ~ in_entry_region (zlen img) e acm bpm km i) ->
   zn (fst (stitch l img (Some fit) acm bpm km)) i = zn img i.
 Proof. intros. cbn [stitch]. apply stitch_loop_frame_region; assumption. Qed.
 
 Theorem stitch_loop_length_region l orig acm bpm km : forall es file,
-  anchored l (zlen orig) -> entries_in_window (zlen orig) es -> zlen file = zlen orig ->
+  anchored l (zlen orig) (zlen orig) -> entries_in_window (zlen orig) es -> zlen file = zlen orig ->
   Forall (fun e => fe_type e = T_SACM -> spec_offset (zlen orig) (fe_addr e) + zlen acm <= zlen orig) es ->
   zlen (fst (stitch_loop l orig file es acm bpm km)) = zlen orig.
 Proof.
@@ -1162,14 +1123,14 @@ Proof.
 Qed.
 
 Theorem stitch_length_region l img fit acm bpm km :
-  anchored l (zlen img) -> entries_in_window (zlen img) fit ->
+  anchored l (zlen img) (zlen img) -> entries_in_window (zlen img) fit ->
   Forall (fun e => fe_type e = T_SACM -> spec_offset (zlen img) (fe_addr e) + zlen acm <= zlen img) fit ->
   zlen (fst (stitch l img (Some fit) acm bpm km)) = zlen img.
 Proof. intros. cbn [stitch]. apply stitch_loop_length_region; try assumption. reflexivity. Qed.
 
 (** on success every targeted entry reads back as the new blob *)
 Theorem stitch_reread_region l img fit acm bpm km file' :
-  anchored l (zlen img) -> entries_in_window (zlen img) fit ->
+  anchored l (zlen img) (zlen img) -> entries_in_window (zlen img) fit ->
   stitch l img (Some fit) acm bpm km = (file', true) ->
   disjoint_regions (spec_targets (zlen img) fit acm bpm km) ->
   forall e, In e fit ->
@@ -1181,6 +1142,6 @@ Proof.
   { intros E. rewrite E in Hk. cbn in Hk. lia. }
   assert (Hw' : Forall (fun e => is_target_type e = true -> BASE - zlen img <= fe_addr e < BASE) fit).
   { eapply Forall_impl; [|exact Hw]. cbn beta. intros x Hx Ht. destruct (Hx Ht). assumption. }
-  pose proof (targets_anchored l (zlen img) acm bpm km fit Ha Hw') as Ht.
+  pose proof (targets_anchored l (zlen img) (zlen img) acm bpm km fit Ha Hw') as Ht.
   eapply stitch_loop_reread; [exact Hs | rewrite Ht; exact Hd | rewrite Ht; apply In_spec_targets; assumption | exact Hk].
 Qed.
